@@ -34,12 +34,19 @@ Inductive estep :=
 | ESys.                                           (* a committed system transaction *)
 (* observed: EInvalid = the static validator refused the transaction; otherwise the receipt *)
 Inductive eres := EInvalid | ERes (r : result).
-(* observed after the step: current epoch, tracker.start_epoch, tracker.start_partition *)
-Definition obs := (N * N * N)%type.
+(* observed after the step: current epoch, tracker.start_epoch, tracker.start_partition, and the
+   number of status records in every non-empty tracker partition (read from the database) *)
+Definition obs := (N * N * N * list (N * N))%type.
+
+Definition count_part (s : list record) (p : N) : N :=
+  N.of_nat (length (filter (fun r => fst (fst r) =? p) s)).
+Definition sumN (l : list (N * N)) : N := fold_right (fun e acc => snd e + acc) 0 l.
 
 Definition obs_ok (st : state) (o : obs) : bool :=
-  let '(c, se, sp) := o in
-  (cur st =? c) && (start_epoch (trk st) =? se) && (start_partition (trk st) =? sp).
+  let '(c, se, sp, cnt) := o in
+  (cur st =? c) && (start_epoch (trk st) =? se) && (start_partition (trk st) =? sp)
+  && forallb (fun e => count_part (store st) (fst e) =? snd e) cnt
+  && (N.of_nat (length (store st)) =? sumN cnt).
 
 Fixpoint next_n (fuel : nat) (st : state) : option state :=
   match fuel with
